@@ -86,6 +86,17 @@ class CollectionAttrMutator(metaclass=ABCMeta):
             collection = protect_via_deepcopy(collection)
         self.collection = collection
 
+    @property
+    def _item_preparer(self):
+        # As for `_prepare_<attr>`: look the method up on the instance's class,
+        # which may be a subclass overriding it.
+        return (
+            getattr(
+                type(self.instance), f"_prepare_{self.attr_spec.item_name}", None
+            )
+            or self.attr_spec.prepare_item
+        )
+
     def prepare_item(self, new_item: Any) -> Any:
         """
         This method when an item in this collection is mutated in the
@@ -104,8 +115,9 @@ class CollectionAttrMutator(metaclass=ABCMeta):
         but before we fallback to constructors and/or apply passed attributes
         and transforms.
         """
-        if self.attr_spec.prepare_item:
-            new_item = self.attr_spec.prepare_item(self.instance, new_item)
+        item_preparer = self._item_preparer
+        if item_preparer:
+            new_item = item_preparer(self.instance, new_item)
         if (  # Convert to spec-class if key was provided.
             self.attr_spec.item_spec_key_type
             and new_item is not MISSING
@@ -177,7 +189,7 @@ class CollectionAttrMutator(metaclass=ABCMeta):
         if self.collection is None or self.collection is MISSING:
             self.collection = self._create_collection()
         if not check_type(self.collection, self.attr_spec.type) or (
-            self.collection and self.attr_spec.prepare_item
+            self.collection and self._item_preparer
         ):
             # Build a new collection rather than preparing items in place: the
             # incoming collection belongs to the caller and must not be mutated.
